@@ -92,6 +92,20 @@ def gen_cases(tier, seed):
         if victim_kind == 'download':
             base['plan']['gate']['match'] = dist['plan']['gate']['match'] = '.read#'
         cases.append({'base': base, 'dist': dist, 'victims': [v], 'style': 'first-fails-others-held', 'exit': 'shutdown_plain'})
+    # cancelling exits (shutdown(cancel=True), exception / KeyboardInterrupt leaving the with-block) with several transfers in
+    # progress, few request threads and requests held at gates, so that final tasks are still queued when the exit begins
+    for i in range(80 if quick else 800):
+        n = rng.choice([2, 3, 4])
+        base = gen.mix(rng, n, hi=rng.choice([1, 1, 2]), sizes=[0, 7, 16, 19, 27])
+        base['config']['max_request_concurrency'] = rng.choice([1, 1, 2])
+        base['config']['max_request_queue_size'] = rng.choice([2, 5, 1000])
+        base['config']['max_submission_queue_size'] = 1000
+        base['mode'] = rng.choice(['shutdown_cancel', 'with_exc', 'with_kbi'])
+        base['trigger'] = 'immediate'
+        base['cancel_msg'] = 'bye'
+        base['plan'] = {'gate': {'match': rng.choice(['/s3:', '/cb:on_queued', '/cb:on_done', '.read#']), 'phase': 'before', 'policy': 'seeded',
+                                 'after_cancel_begin': rng.random() < 0.7}}
+        cases.append({'base': base, 'dist': copy.deepcopy(base), 'victims': list(range(n)), 'style': 'cancelling-exit', 'exit': base['mode']})
     return cases
 
 
@@ -115,7 +129,7 @@ def barrier_violations(obs):
     if getattr(obs, 'live_stage_threads', None):
         out.append(V(f'stage threads still alive after shutdown returned and the process went quiet: {obs.live_stage_threads[:4]}',
                      sym='threads-survive-shutdown'))
-    if obs.shutdown_exc is not None:
+    if obs.shutdown_exc is not None and not isinstance(obs.shutdown_exc, KeyboardInterrupt):
         out.append(V(f'shutdown raised {obs.shutdown_exc!r}', sym='shutdown-raised'))
     unfinished = 0
     sb = [e for e in obs.events if e['kind'] == 'shutdown.begin']
@@ -132,7 +146,7 @@ def run_case(case):
 
     res = {'verdict': 'held', 'key': None, 'violations': [], 'stats': {}, 'summary': {}}
     runs = {}
-    for name in ('base', 'dist'):
+    for name in (('dist',) if case['style'] == 'cancelling-exit' else ('base', 'dist')):
         obs = scenario.run(case[name])
         if obs.hang is not None:
             if not hasattr(obs, 'events'):
@@ -149,6 +163,8 @@ def run_case(case):
             return r
         runs[name] = obs
     try:
+        if 'base' not in runs:
+            runs['base'] = runs['dist']
         b, d = runs['base'], runs['dist']
         viol = []
         stats = {'pairs': 1, 'disturbed_fault_hit': len(d.world.director.raised), 'disturbed_cancel_fired': 1 if d.cancel_events else 0,
@@ -202,5 +218,5 @@ def run_case(case):
                            'exit': case['exit']}}
         return res
     finally:
-        for obs in runs.values():
+        for obs in {id(o): o for o in runs.values()}.values():
             scenario.cleanup(obs)
